@@ -204,7 +204,7 @@ def main():
                            kind_free_text="Coq 8.16 theorems about hand-written Gallina models + differential correspondence "
                                           "(Rust harness on the real crate vs extracted OCaml model) + boolean oracles on real observations")],
              checks=checks,
-             notes="fix: commits in /repo: 526450e (C20), f8d62d5 (C10), 5f7fbf8 (C13); known finding KF1 (C12, C07); see known_findings.json and DESIGN.md",
+             notes="fix: commits in /repo: 526450e (C20), f8d62d5 (C10), 5f7fbf8 (C13); known finding KF1 (C12, C07, C01; narrowly attributed); see known_findings.json and DESIGN.md",
              not_applicable=na)
     json.dump(m, open(os.path.join(VERIF, "MANIFEST.json"), "w"), indent=1)
     print("MANIFEST.json: %d checks" % len(checks))
